@@ -47,6 +47,9 @@ func Pick[T any](q, th T) T {
 	return q
 }
 
+// Replaying reports whether a single saved case is being replayed.
+func Replaying() bool { return *flagReplay != "" }
+
 func Shard() int   { return *flagShard }
 func NShards() int { return *flagNShards }
 func Seed() int64  { return *flagSeed }
